@@ -105,7 +105,7 @@ func (i *Index) Encode() ([]byte, error) {
 	if err := utils.Compress(buf, compressed); err != nil {
 		return nil, err
 	}
-	return compressed.Bytes(), nil
+	return bytes.Clone(compressed.Bytes()), nil
 }
 
 func (i *Index) Decode(index []byte) error {
